@@ -475,6 +475,10 @@ def tlc_retry(run, module, cfg, **kw):
         return run.tlc(module, cfg, **dict(kw, workers=1))
 
 
+def _nv(nv, key, cond) -> None:
+    nv[key] = nv.get(key, 0) + (1 if cond else 0)
+
+
 def run_family(run, name: str, consts: Dict[str, Any], excl0: bool, workers=8, timeout=900) -> None:
     open_causes = sorted({e["signature"].get("cause") for e in run.known if e.get("status") == "open"
                           and e["signature"].get("clause") == "WithinClamp"} & set(ALL_CAUSES))
@@ -519,6 +523,31 @@ def run_family(run, name: str, consts: Dict[str, Any], excl0: bool, workers=8, t
             run.fail(clause, dict(sig, clause=clause), {"family": name, "transition": t}, f"{name}: {msg}",
                      replay={"family": "transition", "constants": c, "transition": t})
     run.extra.setdefault("replayed_ops", {})[name] = ops
+    nv = run.extra.setdefault("nonvacuity", {})
+    for _c, t in cases:
+        o, c = t["obs"], t["cfg"]
+        if not t["gate"]:
+            continue
+        if o["op"] == "observe":
+            n_act = len(o["used"])
+            _nv(nv, "observe.updates_edges", bool(o["keys"]))
+            _nv(nv, "observe.below_threshold_or_nan_excluded", n_act < len(o["items"]) and n_act < c["topk"])
+            _nv(nv, "observe.top_k_truncates", n_act == c["topk"] < len(o["items"]))
+            _nv(nv, "observe.pair_cap_truncates", len(o["keys"]) == c["cap"] < n_act * (n_act - 1) // 2)
+            _nv(nv, "observe.same_key_twice", len({tuple(k) for k in o["keys"]}) < len(o["keys"]))
+            _nv(nv, "observe.self_pair", any(k[0] == k[1] for k in o["keys"]))
+            _nv(nv, "observe.clamp_saturates", any(e["w"] in (c["hi"], c["lo"]) for e in t["post"]["edges"]) and bool(o["keys"]))
+        elif o["op"] == "tick":
+            _nv(nv, "tick.drops", bool(o["dropped"]))
+            _nv(nv, "tick.decays_and_keeps", o["n"] > 0 and bool(t["post"]["edges"]))
+        elif o["op"] == "merge":
+            _nv(nv, "merge.appends", len(t["post"]["merges"]) > len(t["pre"]["merges"]))
+            _nv(nv, "merge.cap_truncates", o["n"] > c["mt"]["mcap"])
+        elif o["op"] == "split":
+            _nv(nv, "split.appends", len(t["post"]["splits"]) > len(t["pre"]["splits"]))
+        elif o["op"] == "promote":
+            _nv(nv, "promote.attaches", bool(o["promos"]))
+            _nv(nv, "promote.again_on_promoted_graph", bool(o["promos"]) and bool(t["pre"]["nodes"]))
     if cases:
         pick = [x for x in cases if x[1]["obs"]["op"] == "observe" and len(x[1]["post"]["edges"]) >= 2] or cases
         run.sample({"family": name, "constants": jc, "transition": pick[len(pick) // 2][1]}, cap=8)
@@ -533,7 +562,7 @@ def check(run) -> None:
     tri3 = graph_def({(1, 2): D // 2, (2, 6): D // 2, (1, 1): D // 4})
     # ---- A: selection (threshold, order, top-k, pair cap, ties, duplicates, NaN / inf), depth 1 ----
     sel = base_consts(NN=4, Modes=["additive"], AlphaDens=[8], Clamps=clamp_def([(-D, D)]), Floors=[0],
-                      Thresholds=[0, D // 2], TopKs=[1, 2, 3], PairCaps=[0, 1, 2, 64], ItemIds=seq_def([1, 2, 7, 8]),
+                      Thresholds=[0, D // 2], TopKs=[1, 2, 3], PairCaps=[0, 2, 64] if q else [0, 1, 2, 64], ItemIds=seq_def([1, 2, 7, 8]),
                       Scores=seq_def([0, D // 2, D, NAN_V] if q else [NINF, 0, D // 2, D, PINF, NAN_V]),
                       MaxItems=3, Ops=["observe"], MaxDepth=1, CheckPerms=True)
     run_family(run, "select3", sel, False)
@@ -543,6 +572,8 @@ def check(run) -> None:
     # ---- B: dynamics (mode, alpha, clamp, floor) x histories --------------------------------------
     dyn = base_consts(MaxDepth=2 if q else 3, InitGraphs=Def(tla_set(["<<>>", tri3])))
     run_family(run, "dyn0", dyn, False)
+    if q:       # one more operation of history on a narrower configuration alphabet
+        run_family(run, "dyn3", dict(dyn, AlphaDens=[2], Clamps=clamp_def([(-D // 2, D // 2)]), Floors=[D // 8], MaxDepth=3), False)
     dynx = dict(dyn, Clamps=clamp_def(CLAMPS_X if q else CLAMPS_X + CLAMPS_N), Floors=[0, D // 8] if not q else [0],
                 Ops=["observe", "tick", "promote"] if q else dyn["Ops"])
     run_family(run, "dynx", dynx, True)
